@@ -593,6 +593,22 @@ static KCase genMoving()
   o.farPct = 5;
   return genCase(o);
 }
+// bench neighbourhood (NeighBench): samples within +-width of the target along the last coordinate; the targets of one call
+// lie in different benches
+static KCase genBench()
+{
+  GenOpt o;
+  o.movingPct = 0;
+  o.farPct = 5;
+  KCase c = genCase(o);
+  c.moving = 2;
+  double lo = 1e300, hi = -1e300;
+  for (int i = 0; i < c.n(); i++) { lo = std::min(lo, c.data.at(i, c.ndim - 1)); hi = std::max(hi, c.data.at(i, c.ndim - 1)); }
+  double ext = (hi > lo) ? hi - lo : 1.;
+  c.hasRadius = 1;
+  c.radius = ext * G::u(0.1, 0.7);
+  return c;
+}
 static KCase genBlock()
 {
   GenOpt o;
@@ -649,6 +665,7 @@ VERIF_SUB(uk, KCase, genUK, runStd);
 VERIF_SUB(extdrift, KCase, genED, runStd);
 VERIF_SUB(cokriging, KCase, genCok, runStd);
 VERIF_SUB(moving, KCase, genMoving, runStd);
+VERIF_SUB(bench, KCase, genBench, runStd);
 VERIF_SUB(block, KCase, genBlock, runStd);
 VERIF_SUB(block_rotated, KCase, genBlockRot, runStd);
 VERIF_SUB(verr, KCase, genVerr, runStd);
